@@ -5,8 +5,9 @@ import samplib as S
 
 PID = "C07"
 LEVEL = "proof"
-COQ_TARGETS = ["Props/C07.vo"]
-THEOREMS = []
+COQ_TARGETS = ["Props/C07.vo", "Props/C07_fp.vo"]
+PROPS_FILES = ["C07", "C07_fp"]
+THEOREMS = ["C07_fingerprints", ]
 TRUSTED_BASE = [
     "Coq 8.16.1 kernel; Proofs/Equivariance.v: on the sampler models (coq/Model/Continuous.v, tied to the code by C01's pathwise "
     "correspondence) the decision tree for (loc, scale) is the decision tree of the standard sampler with the affine expression applied at "
